@@ -180,6 +180,10 @@ func peekWith(e *world.Endpoint, cache bool) peekT {
 	dtls.VerifPeek(e.Conn, func(in dtls.VerifInternals) {
 		p.closed, p.est, p.queued = in.Closed, in.Established, in.QueuedEncrypted
 		p.fragSize, p.fragCount, _, p.cur = in.FragmentBuffer.VerifStats()
+		// the reassembly cursor is synchronised lazily with the state machine's receive sequence
+		if hs := dtlsstate.HandshakeRecvSequence(in.State); hs > int(p.cur) && hs <= 0xffff {
+			p.cur = uint16(hs)
+		}
 		if cache {
 			p.cache = len(in.HandshakeCache.VerifItems())
 		}
